@@ -252,6 +252,9 @@ func (g *G) genOptions() {
 	t.Begin("options")
 	defer t.End()
 	o := Options{MaxStepsPerSprint: 100, MaxResumesPerSession: 500, MaxTemplateChars: 10000, MaxFieldChars: 640, MaxResultChars: 640, MaxBodyBytes: 10000}
+	if g.P.NoTruncation {
+		o.MaxTemplateChars, o.MaxFieldChars, o.MaxResultChars = 1000000, 1000000, 1000000
+	}
 	if !g.P.FewKnobs {
 		o.MaxStepsPerSprint = []int{100, 25, 10, 5, 3, 2, 1}[t.Weighted("maxsteps", 8, 3, 3, 2, 2, 1, 1)]
 		o.MaxResumesPerSession = []int{500, 5, 3, 2, 1}[t.Weighted("maxresumes", 10, 2, 2, 1, 1)]
